@@ -83,36 +83,58 @@ func runExtract(ex filesystem.Extractor, path string, data []byte, sorted bool) 
 	obs.FileRequired = ex.FileRequired(simplefileapi.New(path, info))
 	fsys := fstest.MapFS{path: &fstest.MapFile{Data: data, Mode: 0o644}}
 	in := &filesystem.ScanInput{FS: fsys, Path: path, Root: "", Info: info, Reader: bytes.NewReader(data)}
-	defer func() {
-		if r := recover(); r != nil {
-			obs.Kind = "panic"
-			obs.ErrText = fmt.Sprint(r)
-			obs.Pkgs = nil
+	// the call runs under a deadline: an extractor that hangs is observed as "timeout" (printed to Coq like a panic: the
+	// models never hang). The goroutine cannot be killed, so after a timeout the harness finishes the current format's
+	// files and exits with code 3; the check re-invokes it for the remaining formats.
+	type result struct {
+		obs Observed
+	}
+	done := make(chan result, 1)
+	go func() {
+		o := obs
+		defer func() {
+			if r := recover(); r != nil {
+				o.Kind = "panic"
+				o.ErrText = fmt.Sprint(r)
+				o.Pkgs = nil
+			}
+			done <- result{o}
+		}()
+		inv, err := ex.Extract(context.Background(), in)
+		if err != nil {
+			o.ErrText = err.Error()
+			if errors.Is(err, bufio.ErrTooLong) {
+				o.Kind = "err_toolong"
+			} else {
+				o.Kind = "err_invalid"
+			}
+			return
+		}
+		o.Kind = "ok"
+		o.LocationsOK = true
+		for _, p := range inv.Packages {
+			o.Pkgs = append(o.Pkgs, Pkg{p.Name, p.Version})
+			if len(p.Locations) == 0 || p.Locations[0] != path {
+				o.LocationsOK = false
+			}
+		}
+		if sorted {
+			sortPkgs(o.Pkgs)
 		}
 	}()
-	inv, err := ex.Extract(context.Background(), in)
-	if err != nil {
-		obs.ErrText = err.Error()
-		if errors.Is(err, bufio.ErrTooLong) {
-			obs.Kind = "err_toolong"
-		} else {
-			obs.Kind = "err_invalid"
-		}
+	select {
+	case r := <-done:
+		return r.obs
+	case <-time.After(extractDeadline):
+		obs.Kind = "timeout"
+		obs.ErrText = fmt.Sprintf("Extract did not return within %s", extractDeadline)
+		timedOut = true
 		return obs
 	}
-	obs.Kind = "ok"
-	obs.LocationsOK = true
-	for _, p := range inv.Packages {
-		obs.Pkgs = append(obs.Pkgs, Pkg{p.Name, p.Version})
-		if len(p.Locations) == 0 || p.Locations[0] != path {
-			obs.LocationsOK = false
-		}
-	}
-	if sorted {
-		sortPkgs(obs.Pkgs)
-	}
-	return obs
 }
+
+var extractDeadline = 2 * time.Second
+var timedOut bool
 
 func sortPkgs(ps []Pkg) {
 	sort.SliceStable(ps, func(i, j int) bool {
